@@ -260,3 +260,12 @@ Theorem C01_reorder_loops : forall i j body li hi lj hj pi pj st st' vli vhi vlj
   exec_list [For j lj hj [For i li hi body pi] pj] st = Ok st'.
 Proof. exact ReorderLoops.rule_reorder_loops. Qed.
 Print Assumptions C01_reorder_loops.
+
+(** reorder_loops on the whole procedure: [reorder_proc i] is the term Procedure.reorder_loops returns (compared term
+    by term on every run); it preserves the source when the decidable side conditions hold and the matched nest
+    satisfies the semantic contract of the implementation's checks *)
+Theorem C01_reorder_proc : forall i p,
+  (forall s s', ReorderLoops.reorder_f i s = Some s' -> ReorderLoops.reorder_sem_ok s) ->
+  ReorderLoops.reorder_ok_proc i p = true -> preserves p (ReorderLoops.reorder_proc i p).
+Proof. intros i p Hsem H inp bufs cfg. apply ReorderLoops.reorder_proc_preserves; assumption. Qed.
+Print Assumptions C01_reorder_proc.
